@@ -4,7 +4,10 @@ package main
 // client.Client wired to the recorders, and emits the observed trace.
 
 import (
+	"errors"
 	"fmt"
+	"io"
+	"net"
 	"strings"
 	"sync"
 	"time"
@@ -71,8 +74,39 @@ func (s step) text() string {
 	return s.op
 }
 
+// the kinds of error an application callback can return (a failed downstream forward, say): whatever it is,
+// the client must not acknowledge and must close the connection
+type netErr struct{ timeout, temporary bool }
+
+func (e *netErr) Error() string   { return "downstream: i/o failed" }
+func (e *netErr) Timeout() bool   { return e.timeout }
+func (e *netErr) Temporary() bool { return e.temporary }
+
+var cbErrKinds = []string{"plain", "eof", "wrapped-ueof", "net-timeout", "net-temporary", "operror", "wrapped-operror", "wrapped-eof"}
+
+func cbError(kind int) error {
+	switch kind {
+	case 1:
+		return io.EOF
+	case 2:
+		return fmt.Errorf("forward: %w", io.ErrUnexpectedEOF)
+	case 3:
+		return &netErr{timeout: true}
+	case 4:
+		return &netErr{temporary: true}
+	case 5:
+		return &net.OpError{Op: "write", Net: "tcp", Err: errors.New("broken pipe")}
+	case 6:
+		return fmt.Errorf("forward: %w", &net.OpError{Op: "read", Net: "tcp", Err: errors.New("connection reset by peer")})
+	case 7:
+		return fmt.Errorf("forward: %w", io.EOF)
+	}
+	return errInjected
+}
+
 type scenario struct {
 	name    string
+	cbErr   int // kind of error the callback returns when it is made to fail
 	steps   []step
 	failAt  map[string]int
 	gates   []gateSpec
@@ -136,7 +170,7 @@ func (d *director) newClient(cfg cfgT) {
 			rec.log("cb %s %s", hx.MsgText(msg), map[bool]string{true: "fail", false: "ok"}[fail])
 			rec.leave("cb", cnt)
 			if fail {
-				return errInjected
+				return cbError(d.sc.cbErr)
 			}
 			return nil
 		}
